@@ -15,6 +15,8 @@ construction) under `CanonDoc`. The harness holds `Lossy.Doc` (values as strings
                              field-less paragraphs (they have no text form), and the lossless reader
                              accepts it with the same names / non-blank value lines;
 * `C08_roundtrip_doc`        the round trip under `canonDocB D = true`;
+* `C08_lossless_view`, `C08_lossless_exact`   what the lossless reader shows, exactly: the values
+                             without their empty first line;
 * `C08_roundtrip_iff`        among field-wise canonical documents the round trip holds exactly for
                              those without a field-less paragraph: the domain cannot be enlarged there;
 * `C08_roundtrip_para`, `C08_para_empty`, `C08_roundtrip_para_iff`   the paragraph reader;
@@ -83,6 +85,39 @@ theorem C08_roundtrip_iff_canonDocB (D : Lossy.Doc) (h : ∀ p ∈ D, CanonP p) 
     Lossy.read (printDoc D) = .ok D ↔ canonDocB D = true := by
   rw [C08_roundtrip_iff D h, canonDocB_iff]
   exact ⟨fun e p hp => ⟨e p hp, h p hp⟩, fun e p hp => (e p hp).1⟩
+
+/-- **the lossless view, exactly**: the lossless reader accepts the printed text and shows the
+    document's non-empty paragraphs with every value unchanged except that an EMPTY FIRST LINE is
+    not shown (`dropLead`: a leading LF of the value is dropped; the lossless value is the join of
+    the non-empty lines). This is `contentRel` made exact on the domain. -/
+theorem C08_lossless_view (D : Lossy.Doc) (h : ∀ p ∈ D, CanonP p) :
+    ∃ t, readStrict (printDoc D) = .ok t ∧ docItems t = (nonEmptyParas D).map (·.map viewF) := by
+  have ha := C03.C03_accept _ (docG_wf D h)
+  rw [← docG_str D h, content_docG D] at ha
+  exact ⟨_, ha.1, ha.2⟩
+
+theorem viewF_id (f : Field) (h : f.2.head? ≠ some '\n') : viewF f = f := by
+  obtain ⟨k, v⟩ := f
+  cases v with
+  | nil => rfl
+  | cons c r =>
+    have hc : c ≠ '\n' := by intro e; apply h; simp [e]
+    simp [viewF, dropLead, hc]
+
+/-- under the harness's predicate, when moreover no value starts with an empty line, the lossless
+    reader shows exactly the document -/
+theorem C08_lossless_exact (D : Lossy.Doc) (h : canonDocB D = true)
+    (hb : ∀ p ∈ D, ∀ f ∈ p, f.2.head? ≠ some '\n') :
+    ∃ t, readStrict (printDoc D) = .ok t ∧ docItems t = D := by
+  have hc := (canonDocB_iff D).1 h
+  obtain ⟨t, ht, hd⟩ := C08_lossless_view D (fun p hp => (hc p hp).2)
+  refine ⟨t, ht, ?_⟩
+  rw [hd, (nonEmptyParas_eq_self D).2 (fun p hp => (hc p hp).1)]
+  have : ∀ p ∈ D, p.map viewF = p := by
+    intro p hp
+    have : ∀ f ∈ p, viewF f = f := fun f hf => viewF_id f (hb p hp f hf)
+    rw [List.map_congr_left this, List.map_id']
+  rw [List.map_congr_left this, List.map_id']
 
 /-- a field-less paragraph is lost (the harness's predicate excludes the document) -/
 theorem C08_empty_paragraph_lost :
@@ -352,6 +387,13 @@ example : CanonD exD := (canonDocB_iff _).1 (by decide +kernel)
 example : printDoc exD = "Source: foo\nA: \n x: y\n :z é\nA: \n\nPackage: #c\n l2 \n".toList := by
   decide +kernel
 example : Lossy.read (printDoc exD) = .ok exD := (C08_roundtrip_doc exD (by decide +kernel)).1
+/-- the lossless view of `exD`: the empty first line of the second field is not shown -/
+example : exD.map (·.map viewF) =
+    [[("Source".toList, "foo".toList), ("A".toList, "x: y\n:z é".toList), ("A".toList, [])],
+     [("Package".toList, "#c\nl2 ".toList)]] := by decide +kernel
+/-- `C08_lossless_exact`: the second paragraph of `exD` alone -/
+example : canonDocB [[("Package".toList, "#c\nl2 ".toList)]] = true
+    ∧ ∀ p ∈ [[("Package".toList, "#c\nl2 ".toList)]], ∀ f ∈ p, f.2.head? ≠ some '\n' := by decide +kernel
 
 /-- `C08_print_read` / `C08_roundtrip_iff`: fields canonical, one paragraph field-less -/
 example : ∀ p ∈ ([] :: exD), CanonP p := by decide +kernel
